@@ -368,6 +368,9 @@ def _get_instance(spec, ctx):
         protos.append(('class', getattr(cu, name), getattr(cu, name), {}))
     opt = [(cu.GaussianKDE, {'bw_method': 0.3, 'sample_size': 40}), (cu.GaussianKDE, {'weights': None, 'bw_method': 'silverman'}),
            (cu.TruncatedGaussian, {'minimum': -10.0, 'maximum': 12.0}),
+           # options whose meaningful value is falsy (0, 0.0, empty): they are options all the same
+           (cu.TruncatedGaussian, {'minimum': 0, 'maximum': 12.0}), (cu.TruncatedGaussian, {'minimum': -12.0, 'maximum': 0.0}),
+
            (cu.Univariate, {'parametric': cu.ParametricType.PARAMETRIC, 'bounded': cu.BoundedType.BOUNDED}),
            (cu.Univariate, {'candidates': [cu.GaussianUnivariate, cu.UniformUnivariate], 'selection_sample_size': 20}),
            (cu.BetaUnivariate, {'random_state': 3}), (GaussianMultivariate, {'distribution': cu.GammaUnivariate}),
